@@ -37,7 +37,7 @@ m = {
               "kind_free_text": "Kani 0.68.0 / CBMC 6.11.0 / CaDiCaL bounded model checker over the compiled crate; driver regenerates harness instances and the encoding from /repo on every run"}],
  "checks": [],
  "not_applicable": [],
- "notes": "See DESIGN.md. Exit 0 held / 1 violation after native replay / 2 inconclusive. hooks.add_only is false: three import lines and one cfg(test) attribute are wrapped in cfg pairs (DESIGN 4.2).",
+ "notes": "See DESIGN.md. Exit 0 held / 1 violation after native replay / 2 inconclusive. hooks.add_only is false: three import lines, one cfg(test) attribute and the sleep call in send_packet (H4) are wrapped in cfg pairs (DESIGN 4.2).",
 }
 EXTRA = json.load(open(os.path.join(V, "manifest_checks.json"))) if os.path.exists(os.path.join(V, "manifest_checks.json")) else {}
 for pid, (ref, text, note) in sorted({**CHECKS, **{k: tuple(v) for k, v in EXTRA.items()}}.items()):
